@@ -1013,6 +1013,24 @@ static int vnadata_save_common(vnadata_t *vdp, FILE *fp, const char *filename,
 		    _vnadata_format_to_name(vfdp));
 	    goto out;
 	}
+	switch (fptype) {
+	case VPT_T:
+	case VPT_U:
+	case VPT_H:
+	case VPT_G:
+	case VPT_A:
+	case VPT_B:
+	    if (ports != 2) {
+		_vnadata_error(vdip, VNAERR_USAGE, "%s: format %s "
+			"requires a 2x2 matrix",
+			function, _vnadata_format_to_name(vfdp));
+		goto out;
+	    }
+	    break;
+
+	default:
+	    break;
+	}
     }
 
     /*
